@@ -1050,7 +1050,7 @@ sf_command	(SNDFILE *sndfile, int command, void *data, int datasize)
 		} ;
 
 	if (sndfile == NULL && command == SFC_GET_LOG_INFO)
-	{	if (data == NULL)
+	{	if (data == NULL || datasize < 1)
 			return (sf_errno = SFE_BAD_COMMAND_PARAM) ;
 		snprintf (data, datasize, "%s", sf_parselog) ;
 		return strlen (data) ;
